@@ -28,7 +28,7 @@ theorem finishFrom_ok : ∀ (ds : List (List Name × Nat)) (fs : FS), TimesGood 
     simp only at hN hS hne hA
     obtain ⟨a, m, hg⟩ := hA dp [] (by simp) hne
     have hG : Good fs dp := ⟨hN, hS, hne, fun Q R e hQ _ => by simpa using hA Q R e hQ⟩
-    have hch := chtimes_some dt hG hg (by intro t a' e; cases e)
+    have hch := chtimes_some dt hG hg (by intro t a' lm e; cases e)
     have hget : ∀ q, (fs.set dp ((Obj.dir a m).withMtime (some dt))).get q =
         if q = dp then some (.dir a (some dt)) else fs.get q := fun q => by
       rw [get_set]; rfl
@@ -148,7 +148,9 @@ theorem untar_children (o : Opts) (root : List Name) (r : FileRec) (cs : List Tr
     permission + set-id + sticky bits, archived xattrs, as far as the options restore them) and the archived
     mtime (`mtimeOf`:
     `some mtime`, or `none` when the archived mtime is 0, in which case `LocalFS` never sets one),
-    whether or not it got children after it was created. -/
+    whether or not it got children after it was created; for a regular file and a device node likewise;
+    for a symbolic link its target, its attributes (`linkAttrOfRec`: archived owner and xattrs) and its
+    own archived mtime (`mtimeOf` again: `CreateSymlink` sets it with the no-follow call `lchtimes`). -/
 theorem untar_creates_tree (o : Opts) (root : List Name) (fs : FS) (r : FileRec) (cs : List Tree)
     (b : Bytes)
     (hroot : RootOK fs root) (hshort : Short root)
@@ -328,7 +330,7 @@ def rSub : FileRec :=
 def rF : FileRec :=
   { rec0 with base := nF, path := pSub ++ [slash] ++ nF, parent := pSub, kind := .reg, mode := 0o104755,
               uid := 1000, gid := 100, mtime := 5, size := 3, data := [97, 98, 99], xattrs := [xaA] }
-/-- "sub/l" -> "/etc" -/
+/-- "sub/l" -> "/etc", mtime 9 -/
 def rL : FileRec :=
   { rec0 with base := nL, path := pSub ++ [slash] ++ nL, parent := pSub, kind := .symlink, mode := 0o120777,
               mtime := 9, target := tgt }
@@ -340,7 +342,7 @@ def kids : List Tree := [.dir rSub [.leaf rF, .leaf rL], .dir rTop []]
 def archive : Bytes := (Tree.dir rRoot kids).body
 
 theorem rootOK_of (fs : FS) (h1 : fs.get [nSrv] = some (.dir aSrv (some 4)))
-    (h2 : ∀ t a, fs.get root ≠ some (.symlink t a)) : RootOK fs root where
+    (h2 : ∀ t a m, fs.get root ≠ some (.symlink t a m)) : RootOK fs root where
   ne := by decide
   comps_valid := by decide
   above := by
@@ -352,14 +354,14 @@ theorem rootOK_of (fs : FS) (h1 : fs.get [nSrv] = some (.dir aSrv (some 4)))
 
 theorem rootOK_0 : RootOK fs0 root := by
   refine rootOK_of fs0 (by decide) ?_
-  intro t a h
+  intro t a lm h
   have : fs0.get root = none := by decide
   rw [this] at h
   cases h
 
 theorem rootOK_1 : RootOK fs1 root := by
   refine rootOK_of fs1 (by decide) ?_
-  intro t a h
+  intro t a lm h
   have : fs1.get root = some (.dir aOld (some 6)) := by decide
   rw [this] at h
   cases h
@@ -431,20 +433,20 @@ theorem expected_0 :
       [(root, .dir (aDir [xaA]) (some 11)),
        (root ++ [nSub], .dir aSub (some 7)),
        (root ++ [nSub, nF], .file [97, 98, 99] aF (some 5)),
-       (root ++ [nSub, nL], .symlink tgt aL),
+       (root ++ [nSub, nL], .symlink tgt aL (some 9)),
        (root ++ [nTop], .dir (aDir []) none)] := by
   simp only [Tree.expectList, Tree.layList, Tree.lay, kids]
   decide
 
 /-- hence: both directories that got children after they were created end with their archived mtime set
-    explicitly, the file (set-user-ID bit and xattr included) and the link are there, and nothing else is
-    beneath the destination -/
+    explicitly, the file (set-user-ID bit and xattr included) and the link (with its own archived
+    mtime) are there, and nothing else is beneath the destination -/
 example :
     (untarFS opts root fs0 archive).2 = true ∧
     (untarFS opts root fs0 archive).1.get root = some (.dir (aDir [xaA]) (some 11)) ∧
     (untarFS opts root fs0 archive).1.get (root ++ [nSub]) = some (.dir aSub (some 7)) ∧
     (untarFS opts root fs0 archive).1.get (root ++ [nSub, nF]) = some (.file [97, 98, 99] aF (some 5)) ∧
-    (untarFS opts root fs0 archive).1.get (root ++ [nSub, nL]) = some (.symlink tgt aL) ∧
+    (untarFS opts root fs0 archive).1.get (root ++ [nSub, nL]) = some (.symlink tgt aL (some 9)) ∧
     (untarFS opts root fs0 archive).1.get (root ++ [nTop]) = some (.dir (aDir []) none) ∧
     (untarFS opts root fs0 archive).1.get (root ++ [nSub, nTop]) = none := by
   obtain ⟨h1, h2⟩ := facts_0
@@ -458,7 +460,7 @@ example :
     (untarFS opts root fs0 archive).1.get root = some (.dir (aDir [xaA]) (some 11)) ∧
     (untarFS opts root fs0 archive).1.get (root ++ [nSub]) = some (.dir aSub (some 7)) ∧
     (untarFS opts root fs0 archive).1.get (root ++ [nSub, nF]) = some (.file [97, 98, 99] aF (some 5)) ∧
-    (untarFS opts root fs0 archive).1.get (root ++ [nSub, nL]) = some (.symlink tgt aL) := by
+    (untarFS opts root fs0 archive).1.get (root ++ [nSub, nL]) = some (.symlink tgt aL (some 9)) := by
   decide +kernel
 
 /-- onto the existing empty directory `/srv/dest` (5:5, mode 02700, user.b, mtime 6): same content; the
